@@ -50,7 +50,7 @@ pub fn scenarios(thorough: bool) -> Vec<Scenario> {
         sels.push(vec![0, 4, 6]);
         sels.push(vec![1, 5, 7]);
     }
-    let dest_states = ["absent", "file", "emptydir", "earlier", "bystanders", "linktodir"];
+    let dest_states = ["absent", "file", "emptydir", "earlier", "earlier-kinds", "bystanders", "linktodir"];
     let spellings = ["plain", "slash-src", "slash-dst", "dot", "abs"];
     let flagsets = ["-", "-T", "--target-directory"];
     for d in drivers() {
@@ -89,6 +89,35 @@ pub fn scenarios(thorough: bool) -> Vec<Scenario> {
                                         match &mut e2.kind {
                                             crate::scen::Kind::File(c) => *c = crate::scen::Content::lit("EARLIER VERSION, longer than the new one"),
                                             crate::scen::Kind::Symlink(t) => *t = "changed-since".into(),
+                                            _ => {}
+                                        }
+                                        extra.push(e2);
+                                    }
+                                }
+                                tree.extend(extra);
+                            }
+                            "earlier-kinds" => {
+                                // an earlier copy in which entries have changed kind since: files or dangling links where
+                                // the source now has directories, a directory where the source has a file
+                                tree.push(Entry::dir("dst"));
+                                let mut extra = vec![];
+                                let mut swapped: Vec<String> = vec![];
+                                for &i in sel {
+                                    for e in &comps[i].2 {
+                                        if e.path == "ltarget" || swapped.iter().any(|s| e.path.starts_with(&format!("{}/", s))) {
+                                            continue;
+                                        }
+                                        let mut e2 = e.clone();
+                                        e2.path = format!("dst/{}", e.path);
+                                        let is_leaf_dir = matches!(e.kind, crate::scen::Kind::Dir) && !comps[i].2.iter().any(|o| o.path.starts_with(&format!("{}/", e.path)));
+                                        match &e.kind {
+                                            crate::scen::Kind::Dir if is_leaf_dir => {
+                                                e2.kind = if h % 2 == 0 { crate::scen::Kind::File(crate::scen::Content::lit("was a file")) } else { crate::scen::Kind::Symlink("gone".into()) };
+                                                swapped.push(e.path.clone());
+                                            }
+                                            crate::scen::Kind::File(_) if e.path.ends_with("/a") => {
+                                                e2.kind = crate::scen::Kind::Dir;
+                                            }
                                             _ => {}
                                         }
                                         extra.push(e2);
